@@ -141,6 +141,12 @@ def rejectCmd (b : BState) (h : Option Nat) (st : Status) : BState :=
   let g := { b.g with stats := { b.g.stats with keysRejected := b.g.stats.keysRejected + 1 } }
   finishCmd { b with g := g } h st
 
+/-- the command worker panics where it stands: the thread ends, the receiver is dropped with what was queued, the
+    acknowledgement of the command it was executing is never completed. Used where `is_space_available_for` overflows
+    (`Adm.spaceOverflow`; the `weight_used` read guard is a temporary of that statement, so no lock outlives the panic). -/
+def workerDies (b : BState) : BState :=
+  { b with w := .dead, g := { b.g with worker := .dead, queue := [] } }
+
 def wuFree (b : BState) (t : Tid) : Bool := b.wuOwner.isNone || b.wuOwner == some t
 
 def ttlFree (b : BState) (shard : Nat) : Bool := b.ttlOwner != some shard
@@ -201,6 +207,7 @@ def workerAct (b : BState) (o : Oracle) : Except String (BState × Oracle) :=
     else .ok ({ b with w := .space0 c }, o)
   | .space0 c =>
     if !wuFree b .worker then .error "not enabled: weight_used is locked"
+    else if g.adm.spaceOverflow then .ok (workerDies b, o)    -- `max_weight - weight_used` outside `i64` (cache_weight.rs:222)
     else
       let space := g.adm.max - g.adm.used
       if space ≥ c.w then .ok ({ b with w := .insert c }, o)
@@ -224,6 +231,7 @@ def workerAct (b : BState) (o : Oracle) : Except String (BState × Oracle) :=
     else .ok ({ b with g := applyEvict g (id, wk.key, wk.weight), wuOwner := none, w := .evSpace c incEst sample }, o)
   | .evSpace c incEst sample =>
     if !wuFree b .worker then .error "not enabled: weight_used is locked"
+    else if g.adm.spaceOverflow then .ok (workerDies b, o)
     else .ok ({ b with w := .fill c incEst sample (g.adm.max - g.adm.used) }, o)
   | .fill c incEst sample space =>
     (match fillSample g.lfu g.adm.kw (fillNeed g.cfg.sampleSize g.adm.kw sample) sample o with
@@ -231,6 +239,7 @@ def workerAct (b : BState) (o : Oracle) : Except String (BState × Oracle) :=
      | .ok (sample', o') => loopDecide b c incEst sample' space o')
   | .emptySpace c =>
     if !wuFree b .worker then .error "not enabled: weight_used is locked"
+    else if g.adm.spaceOverflow then .ok (workerDies b, o)
     else if g.adm.max - g.adm.used ≥ c.w then .ok ({ b with w := .insert c }, o)
     else .ok (rejectCmd b c.h (.rejected .noSpace), o)
   | .insert c =>
